@@ -174,8 +174,11 @@ class QsysResult:
 
         """
         shot_dct: dict[str, list[str]] = defaultdict(list)
+        first_regs: set[str] | None = None
         for shot in self.results:
             bitstrs = shot.to_register_bits()
+            if first_regs is None:
+                first_regs = set(bitstrs)
             for reg, bitstr in bitstrs.items():
                 if (
                     strict_lengths
@@ -185,7 +188,7 @@ class QsysResult:
                     msg = "All register bitstrings must have the same length."
                     raise ValueError(msg)
                 shot_dct[reg].append(bitstr)
-            if strict_names and bitstrs.keys() != shot_dct.keys():
+            if strict_names and bitstrs.keys() != first_regs:
                 msg = "All shots must have the same registers."
                 raise ValueError(msg)
         return dict(shot_dct)
